@@ -38,6 +38,12 @@ func (r rt) fail(container, what, format string, a ...any) {
 	r.t.Fail("roundtrip/"+container+"/"+r.k.class()+"/"+what, "key %s: %s", r.k.name, fmt.Sprintf(format, a...))
 }
 
+// failShape reports under a key without the key class: used for the encrypted wrappers, where the option (cipher, KDF,
+// PEM cipher) names the failing shape and the key class is only detail (a defect there hits every key alike).
+func (r rt) failShape(container, what, format string, a ...any) {
+	r.t.Fail("roundtrip/"+container+"/"+what, "key %s: %s", r.k.name, fmt.Sprintf(format, a...))
+}
+
 // priv runs one encode -> decode -> compare -> re-encode cycle for a private-key container.
 func (r rt) priv(container string, enc func() ([]byte, error), dec func([]byte) (any, error), reenc func(any) ([]byte, error)) []byte {
 	r.t.Eval(1)
@@ -560,30 +566,30 @@ func encCycle(t *engine.T, k *key, scheme, opt string, pws []pwSet, mk func(ln b
 		t.Nontrivial("enc/" + scheme + "/" + k.class())
 		var der []byte
 		var err error
-		if t.Guard("roundtrip/"+container+"/"+k.class()+"/encode", func() { der, err = mk(ln, pw.correct) }) {
+		if t.Guard("roundtrip/"+container+"/encode", func() { der, err = mk(ln, pw.correct) }) {
 			continue
 		}
 		if err != nil {
-			r.fail(container, "encode-error", "%s %s: %v", opt, pw.name, err)
+			r.failShape(container, "encode-error", "%s %s: %v", opt, pw.name, err)
 			continue
 		}
 		var got any
-		if t.Guard("roundtrip/"+container+"/"+k.class()+"/decode", func() { got, _, err = pkcs8.ParsePrivateKey(der, pw.correct) }) {
+		if t.Guard("roundtrip/"+container+"/decode", func() { got, _, err = pkcs8.ParsePrivateKey(der, pw.correct) }) {
 			continue
 		}
 		if err != nil {
-			r.fail(container, "decode-error", "%s %s: %v; container=%s", opt, pw.name, err, engine.Hex(der))
+			r.failShape(container, "decode-error", "%s %s: %v; container=%s", opt, pw.name, err, engine.Hex(der))
 			continue
 		}
 		if ok, why := same(k, got); !ok {
-			r.fail(container, "mismatch", "%s %s: %s; container=%s", opt, pw.name, why, engine.Hex(der))
+			r.failShape(container, "mismatch", "%s %s: %s; container=%s", opt, pw.name, why, engine.Hex(der))
 			continue
 		}
 		if p8b, err := k.reP8(got); err != nil || !bytes.Equal(p8b, k.p8) {
-			r.fail(container, "reencode-differs", "%s %s: inner PKCS#8 of the decoded key differs (%v)", opt, pw.name, err)
+			r.failShape(container, "reencode-differs", "%s %s: inner PKCS#8 of the decoded key differs (%v)", opt, pw.name, err)
 		}
 		if der2, err := mk(ln, pw.correct); err != nil || !bytes.Equal(der, der2) {
-			r.fail(container, "reencode-differs", "%s %s: same stream, different container (%v)", opt, pw.name, err)
+			r.failShape(container, "reencode-differs", "%s %s: same stream, different container (%v)", opt, pw.name, err)
 		}
 		t.Outcome("enc-ok/" + scheme)
 		for _, w := range wrongPasswords(pw.correct) {
@@ -735,33 +741,33 @@ func checkPEM(t *engine.T, k *key, pws []pwSet) {
 				t.Nontrivial("pem/" + pc.name + "/" + in.name + "/" + k.class())
 				var text []byte
 				var err error
-				if t.Guard("roundtrip/"+container+"/"+k.class()+"/encode", func() { text, err = pemEncode(pc, ln, in, pw.correct) }) {
+				if t.Guard("roundtrip/"+container+"/encode", func() { text, err = pemEncode(pc, ln, in, pw.correct) }) {
 					continue
 				}
 				if err != nil {
-					r.fail(container, "encode-error", "%v", err)
+					r.failShape(container, "encode-error", "%v", err)
 					continue
 				}
 				var got any
 				var der []byte
 				var stage string
-				if t.Guard("roundtrip/"+container+"/"+k.class()+"/decode", func() { got, der, stage, err = pemDecode(text, in, pw.correct) }) {
+				if t.Guard("roundtrip/"+container+"/decode", func() { got, der, stage, err = pemDecode(text, in, pw.correct) }) {
 					continue
 				}
 				if err != nil {
-					r.fail(container, "decode-error", "%s (%s): %v\n%s", pw.name, stage, err, text)
+					r.failShape(container, "decode-error", "%s (%s): %v\n%s", pw.name, stage, err, text)
 					continue
 				}
 				if !bytes.Equal(der, in.der) {
-					r.fail(container, "mismatch", "%s: decrypted DER differs from the encrypted DER", pw.name)
+					r.failShape(container, "mismatch", "%s: decrypted DER differs from the encrypted DER", pw.name)
 					continue
 				}
 				if ok, why := same(k, got); !ok {
-					r.fail(container, "mismatch", "%s: %s", pw.name, why)
+					r.failShape(container, "mismatch", "%s: %s", pw.name, why)
 					continue
 				}
 				if text2, err := pemEncode(pc, ln, in, pw.correct); err != nil || !bytes.Equal(text, text2) {
-					r.fail(container, "reencode-differs", "%s: same stream, different PEM text (%v)", pw.name, err)
+					r.failShape(container, "reencode-differs", "%s: same stream, different PEM text (%v)", pw.name, err)
 				}
 				t.Outcome("pem-ok/" + pc.name)
 				for _, w := range wrongPasswords(pw.correct) {
